@@ -1,0 +1,77 @@
+//go:build verif
+
+// Package verifhook (build tag verif): hook points driven by a verification harness.
+package verifhook
+
+import (
+	"sync"
+	"time"
+)
+
+// CrashSignal is the panic value raised by Crash at the selected point.
+type CrashSignal struct{ Name string }
+
+// CrashAt selects the crash point ("" = never).
+var CrashAt string
+
+// Crash simulates a process crash at the selected point by unwinding with CrashSignal.
+func Crash(name string) {
+	if CrashAt != "" && name == CrashAt {
+		panic(CrashSignal{name})
+	}
+}
+
+// ---- schedule replay: goroutines pass the points in the installed order ----
+
+var (
+	mu      sync.Mutex
+	cond    = sync.NewCond(&mu)
+	order   []string
+	next    int
+	active  bool
+	timeout = 2 * time.Second
+)
+
+// Install activates schedule replay: points are passed in the given order; a goroutine
+// reaching a point that is not next in the order waits (up to a timeout, after which it
+// proceeds so that an unrealisable order cannot hang the run).
+func Install(o []string) {
+	mu.Lock()
+	order, next, active = o, 0, len(o) > 0
+	mu.Unlock()
+	cond.Broadcast()
+}
+
+// Point is a schedule point.
+func Point(name string) {
+	mu.Lock()
+	defer mu.Unlock()
+	if !active {
+		return
+	}
+	deadline := time.Now().Add(timeout)
+	for active && next < len(order) && order[next] != name {
+		// is this point expected later at all?
+		found := false
+		for _, o := range order[next:] {
+			if o == name {
+				found = true
+				break
+			}
+		}
+		if !found || time.Now().After(deadline) {
+			return
+		}
+		waitWithTimeout(50 * time.Millisecond)
+	}
+	if active && next < len(order) && order[next] == name {
+		next++
+		cond.Broadcast()
+	}
+}
+
+func waitWithTimeout(d time.Duration) {
+	t := time.AfterFunc(d, func() { cond.Broadcast() })
+	cond.Wait()
+	t.Stop()
+}
